@@ -685,26 +685,26 @@ def check_accept(ctx):
 
 
 def check(ctx):
-    check_skip(ctx)
-    check_optional(ctx)
-    check_polarity(ctx)
-    check_coverage(ctx)
-    check_oneshot(ctx)
-    check_accept(ctx)
+    ctx.run(check_skip)
+    ctx.run(check_optional)
+    ctx.run(check_polarity)
+    ctx.run(check_coverage)
+    ctx.run(check_oneshot)
+    ctx.run(check_accept)
     # a requirement holds in the scene only if the predicate it evaluates is right: the structural conditions on the
     # collision / containment shortcuts (C04) and on the visibility predicate (C17) are necessary conditions here too
     from . import c04, c17
 
-    c04.check_polarity(ctx, R="C02.pred.polarity")
-    c04.check_fallthrough(ctx, R="C02.pred.exhaustive")
-    c04.check_planar(ctx, R="C02.pred.planar")
-    c04.check_computed(ctx, R="C02.pred.computed")
-    c04.check_transforms(ctx, R="C02.pred.transform")
+    ctx.run(c04.check_polarity, R="C02.pred.polarity")
+    ctx.run(c04.check_fallthrough, R="C02.pred.exhaustive")
+    ctx.run(c04.check_planar, R="C02.pred.planar")
+    ctx.run(c04.check_computed, R="C02.pred.computed")
+    ctx.run(c04.check_transforms, R="C02.pred.transform")
     from .c03 import check_cache
 
-    check_cache(ctx, R="C02.pred.cache")
-    c17.check_occluders(ctx, R="C02.pred.occluders")
-    c17.check_plumbing(ctx, R="C02.pred.plumbing")
+    ctx.run(check_cache, R="C02.pred.cache")
+    ctx.run(c17.check_occluders, R="C02.pred.occluders")
+    ctx.run(c17.check_plumbing, R="C02.pred.plumbing")
     from . import c16
 
-    c16.check_algebra(ctx, R="C02.pred.algebra")
+    ctx.run(c16.check_algebra, R="C02.pred.algebra")
